@@ -10,7 +10,7 @@ use blots_core::values::SerializableValue;
 use proptest::prelude::*;
 use serde::{Deserialize, Serialize};
 
-pub const RULE: &str = "recursive data values (finite doubles over bit patterns and boundaries, strings over all Unicode scalars incl. quotes / backslashes / control characters, keys incl. empty, numeric-looking, needing quotes, composed vs decomposed; depth <= 6; the key __blots_function only with non-string values - numbers, booleans, null, lists, records - which is not the reserved function form): (1) value -> from_value -> to_json -> text -> from_str -> from_json -> to_value in a fresh heap, compared bit-exactly and with .== in one heap; (2) JSON text from the harness's own writer (four number spellings, escaped / raw non-ASCII) -> inputs -> `output x = inputs.x` -> JSON text, read by the harness's own JSON parser (Rust's correctly rounded float parser) and compared as JSON values; (3) a sample of both through the real CLI with -i and with piped stdin, including documents of 64 KiB .. 300 KiB of raw multi-byte characters at every byte alignment; (4) for every value a, the program-built aliased values [a, a] and {p: a, q: [a, {r: a}]} (one heap object reachable several times) serialise to the data they contain. (5) values nested 7 .. 300 levels deep (lists, records, alternating), built by a program, written by the CLI and piped into `output x = inputs.x`. Non-trivial = depth >= 2, or a non-integer number, or a non-ASCII string; distinct by serialised value.";
+pub const RULE: &str = "recursive data values (finite doubles over bit patterns and boundaries, strings over all Unicode scalars incl. quotes / backslashes / control characters, keys incl. empty, numeric-looking, needing quotes, composed vs decomposed; depth <= 6; the key __blots_function only with non-string values - numbers, booleans, null, lists, records - which is not the reserved function form): (1) value -> from_value -> to_json -> text -> from_str -> from_json -> to_value in a fresh heap, compared bit-exactly and with .== in one heap; (2) JSON text from the harness's own writer (four number spellings, escaped / raw non-ASCII) -> inputs -> `output x = inputs.x` -> JSON text, read by the harness's own JSON parser (Rust's correctly rounded float parser) and compared as JSON values; (3) a sample of both through the real CLI with -i and with piped stdin (a third of them written with --output FILE into a file that already holds a longer outputs document, and read back from that file), including documents of 64 KiB .. 300 KiB of raw multi-byte characters at every byte alignment; (4) for every value a, the program-built aliased values [a, a] and {p: a, q: [a, {r: a}]} (one heap object reachable several times) serialise to the data they contain. (5) values nested 7 .. 300 levels deep (lists, records, alternating), built by a program, written by the CLI and piped into `output x = inputs.x`. Non-trivial = depth >= 2, or a non-integer number, or a non-ASCII string; distinct by serialised value.";
 pub const ASSUMPTIONS: &[&str] = &[
     "reference number conversion is Rust's str::parse::<f64> (correctly rounded), independent of serde_json's parser",
     "JSON objects with duplicate keys are not generated (their meaning is unspecified in JSON)",
@@ -20,7 +20,14 @@ pub const ASSUMPTIONS: &[&str] = &[
 pub enum Case {
     Value(MV),
     Doc { value: MV, style: u8 },
-    Cli { value: MV, style: u8, stdin: bool },
+    Cli {
+        value: MV,
+        style: u8,
+        stdin: bool,
+        /// written with --output FILE into a file that already holds an earlier, longer outputs document, then read back from it
+        #[serde(default)]
+        out_file: bool,
+    },
     /// a value nested `depth` levels deep (lists, records or alternating), built by a program,
     /// written by the CLI as output and piped into a second program as input
     Deep { depth: u16, kind: u8 },
@@ -227,8 +234,11 @@ impl Check for RoundTrip {
                     other => fail!("cli:deep:changed", "a value nested {} deep came back different: {:?}", depth, other.map(|_| "parsed")),
                 }
             }
-            Case::Cli { value, style, stdin } => {
+            Case::Cli { value, style, stdin, out_file } => {
                 ctx.label(if *stdin { "cli-stdin" } else { "cli--i" });
+                if *out_file {
+                    ctx.label("cli--output-file-reused");
+                }
                 if json::write(value, *style).len() > 65536 {
                     ctx.label("cli:document>64KiB");
                 }
@@ -239,16 +249,32 @@ impl Check for RoundTrip {
                 let dir = crate::engine::proc::scratch_dir("c06");
                 let script = format!("{}/p.blots", dir);
                 std::fs::write(&script, "output x = inputs.x\n").unwrap();
-                let r = if *stdin {
-                    run_proc(&ctx.cli_path, &[script.clone()], Some(doc.as_bytes()), None, &Limits::default())
-                } else {
-                    run_proc(&ctx.cli_path, &["-i".into(), doc.clone(), script.clone()], None, None, &Limits::default())
-                };
+                let out_path = format!("{}/out.json", dir);
+                let mut args: Vec<String> = Vec::new();
+                if *out_file {
+                    // the file holds the outputs of an earlier run, longer than anything this run writes
+                    std::fs::write(&out_path, format!("{{\"x\":\"{}\",\"y\":[1,2,3]}}\n", "#".repeat(doc.len() * 6 + 64))).unwrap();
+                    args.push("-o".into());
+                    args.push(out_path.clone());
+                }
+                if !*stdin {
+                    args.push("-i".into());
+                    args.push(doc.clone());
+                }
+                args.push(script.clone());
+                let r = run_proc(&ctx.cli_path, &args, if *stdin { Some(doc.as_bytes()) } else { None }, None, &Limits::default());
+                let written = if *out_file { std::fs::read_to_string(&out_path).ok() } else { None };
                 let _ = std::fs::remove_dir_all(&dir);
-                let r = match r {
+                let mut r = match r {
                     Ok(r) => r,
                     Err(e) => fail!("cli:spawn", "cannot run {}: {}", ctx.cli_path, e),
                 };
+                if *out_file && !r.timed_out && r.code == Some(0) {
+                    match written {
+                        Some(t) => r.stdout = t,
+                        None => fail!("cli:output-file-unreadable", "blots -o FILE exited 0 but FILE is not readable text; input {}", doc),
+                    }
+                }
                 if r.timed_out {
                     ctx.note("a CLI run timed out (inconclusive)");
                     return Ok(());
@@ -342,8 +368,8 @@ pub fn run(ctx: &mut Ctx) {
         for st in 0..4 {
             cases.push(Case::Doc { value: v.clone(), style: st });
         }
-        cases.push(Case::Cli { value: v.clone(), style: 0, stdin: false });
-        cases.push(Case::Cli { value: v.clone(), style: 2, stdin: true });
+        cases.push(Case::Cli { value: v.clone(), style: 0, stdin: false, out_file: false });
+        cases.push(Case::Cli { value: v.clone(), style: 2, stdin: true, out_file: true });
     }
     // values nested far deeper than the random generator goes ("at any nesting depth")
     for depth in [7u16, 30, 64, 100, 120, 125, 126, 127, 128, 150, 300] {
@@ -359,7 +385,7 @@ pub fn run(ctx: &mut Ctx) {
         let body: String = std::iter::repeat(unit).take(blocks * 66_000 / unit.len() + 17).collect();
         let value = MV::Rec(vec![("pad".into(), MV::Str("p".repeat(pad))), ("big".into(), MV::Str(body)), ("tail".into(), MV::List(vec![MV::Str("é😀".into()), MV::Num(F(0.1))]))]);
         // even styles keep non-ASCII characters raw; escaped spellings (6 bytes per character) only when piped
-        Case::Cli { value, style: if stdin { style } else { style & 2 }, stdin }
+        Case::Cli { value, style: if stdin { style } else { style & 2 }, stdin, out_file: pad % 3 == 0 }
     });
     ctx.run_random(&RoundTrip, big, ctx.tier.pick(48, 400));
     let n = ctx.tier.pick(40_000, 1_200_000);
@@ -367,7 +393,7 @@ pub fn run(ctx: &mut Ctx) {
     ctx.run_random(&RoundTrip, (crate::gen_::data_mv(5), 0u8..4, any::<u16>()).prop_map(|(value, style, k)| Case::Doc { value: with_reserved_key(value, k), style }), n);
     ctx.run_random(
         &RoundTrip,
-        (crate::gen_::data_mv(4), 0u8..4, any::<bool>(), any::<u16>()).prop_map(|(value, style, stdin, k)| Case::Cli { value: with_reserved_key(value, k), style, stdin }),
+        (crate::gen_::data_mv(4), 0u8..4, any::<bool>(), any::<u16>()).prop_map(|(value, style, stdin, k)| Case::Cli { value: with_reserved_key(value, k), style, stdin, out_file: k % 3 == 0 }),
         ctx.tier.pick(400, 8_000),
     );
 }
